@@ -85,7 +85,9 @@ class Bounds:
         self.upper = upper
 
     def __hash__(self) -> int:
-        return hash(self.lower)+hash(self.upper)
+        # hash of the string form: summing the integer hashes made e.g. (0,3) and (1,2)
+        # collide, and in CPython hash(-1) == hash(-2), so also (-1,3) and (-2,3)
+        return hash((str(self.lower), str(self.upper)))
 
     def __iter__(self):
         return iter([self.lower, self.upper])
